@@ -40,6 +40,8 @@ ShapesCrashChk == {Shp({"cont"}, <<Blk(<<1>>, 1, 0, {"pre"})>>, 0), Shp({"bypass
 \* post-checks at both levels with a block behind them (a durably failed group fails its scope also after a restart)
 ShapesCrashPost == {Shp({"post"}, <<Blk(<<1>>, 1, 0, {"post"}), Blk(<<1>>, 1, 0, {})>>, 0),
                     Shp({"deferred"}, <<Blk(<<1>>, 1, 0, {"pre", "post", "deferred"}), Blk(<<1>>, 1, 0, {})>>, 0)}
+\* retries across a crash: what is durable of an action's attempts decides what the resuming process may do with it
+ShapesCrashRetry == {Shp({}, <<Blk(<<2>>, 1, 0, {})>>, 1), Shp({}, <<Blk(<<1, 1>>, 2, 1, {})>>, 2)}
 \* liveness: every plan reaches "finished" under weak fairness, also across a crash, also with continuous checks
 ShapesLive == {Shp({"cont"}, <<Blk(<<1>>, 1, 0, {"pre", "cont"})>>, 0), Shp({}, <<Blk(<<1, 1>>, 2, 0, {"cont", "deferred"})>>, 0)}
 ShapesLiveCrash == {Shp({"pre", "deferred"}, <<Blk(<<1>>, 1, 0, {"post"})>>, 0), Shp({}, <<Blk(<<1, 1>>, 2, 1, {})>>, 0)}
